@@ -130,7 +130,7 @@ UNIT_TRUST = {
         "drop glue (units/models/buildw_glue.rs) is written per the Rust reference (own Drop::drop, then fields in declaration order; Vec elements in order); explicit drop elaboration is inserted at the `?`/return sites of Pipeline::popen, join and capture",
         "wait-safety is demanded only of waits the library causes implicitly (drop glue); a user who asks join() for a pipe nobody reads is outside the claim",
         "parked pipe ends (BW.parked): the read end make_pipe() returns and every end moved into a Communicator count as held by the library until the modelled drop (drop_glue_opt_file, drop_glue_communicator: R6 of `x.take();` / `drop(comm)` and of the `?` exits of capture / setup_communicate, locals dropped in reverse order of declaration) or until an unlimited Communicator::read succeeds (everything delivered, every stream at EOF: unit comm); a Communicator returned to the caller by communicate() is the caller's to look after (ghost hand_over); the public terminators assume nothing is parked when they are called",
-        "R6 seams: map_stderr / map_detached = into_iter().map(f).collect(); Vec::drain(..1)/drain(len-1..) = remove(0)/pop(); enumerate loop = index loop with remove(0); Vec::extend(iter.map(f)) = push loop; env_retain_ne = Vec::retain with a destructuring closure; Path = its OsStr",
+        "R6 seams: collect_execs = iterable.into_iter().collect() in Pipeline::from_exec_iter (any IntoIterator<Item = Exec> is represented by the sequence it yields; its documented panic for fewer than two elements is a precondition); map_stderr / map_detached = into_iter().map(f).collect(); Vec::drain(..1)/drain(len-1..) = remove(0)/pop(); enumerate loop = index loop with remove(0); Vec::extend(iter.map(f)) = push loop; env_retain_ne = Vec::retain with a destructuring closure; Path = its OsStr",
         "`impl AsRef<OsStr>` arguments are modelled by a local AsRef trait exposing the bytes; `impl Into<..>` parameters are rewritten to named type parameters (identical semantics)",
         "From<Redirection> for InputRedirection (panics on Merge) and the NullFile conversions are not verified here",
         "format_env (duplicate keys: last wins) is outside this unit",
